@@ -105,7 +105,7 @@ def build(spec):
         name = "s%d" % i
         if hdr == 3:
             s = pe.SHList.add_section(name=name, data=data, flags=flags, addr=next_addr)
-            next_addr = _roundup(next_addr + max(vsz, 1), s_align)
+            next_addr = _roundup(next_addr + max(vsz, rsz, 1), s_align)
         else:
             s = pe.SHList.add_section(name=name, data=data, flags=flags)
         secs.append(s)
